@@ -146,6 +146,9 @@ def print_variant(v, split, with_strum=True, indent="    "):
         else:
             strum = ["%s#[strum(%s)]" % (indent, ", ".join(items))]
     others = [indent + x for x in v.get("xattrs", [])]
+    if v.get("raw"):
+        # a hand-laid-out attribute block (the record still says what it means: dis, ser, ...)
+        docs, strum, others = [], [indent + x for x in v["raw"]], []
     if v.get("order") and split and len(strum) >= 2 and (docs or others):
         # non-strum attributes (doc comments, #[allow], ...) may stand BETWEEN two #[strum(..)] attributes;
         # doc lines keep their relative order, strum attributes keep theirs
